@@ -275,6 +275,19 @@ instance lawful_withGen (c : Codec) (g : Gen Val) [hc : Lawful c] : Lawful (with
 instance lawfulEnd_withGen (c : Codec) (g : Gen Val) [hc : LawfulEnd c] : LawfulEnd (withGen c g) where
   law v f h := hc.law v f h
 
+instance lawful_withPaths (c : Codec) (p : PMode → Gen (List Val)) [hc : Lawful c] : Lawful (withPaths c p) where
+  law v f h k := hc.law v f h k
+instance lawfulEnd_withPaths (c : Codec) (p : PMode → Gen (List Val)) [hc : LawfulEnd c] : LawfulEnd (withPaths c p) where
+  law v f h := hc.law v f h
+instance lawful_typ (n : String) (c : Codec) [hc : Lawful c] : Lawful (typ n c) where
+  law v f h k := hc.law v f h k
+instance lawfulEnd_typ (n : String) (c : Codec) [hc : LawfulEnd c] : LawfulEnd (typ n c) where
+  law v f h := hc.law v f h
+instance lawful_untyped (c : Codec) [hc : Lawful c] : Lawful (untyped c) where
+  law v f h k := hc.law v f h k
+instance lawfulEnd_untyped (c : Codec) [hc : LawfulEnd c] : LawfulEnd (untyped c) where
+  law v f h := hc.law v f h
+
 instance lawful_ctag (p : Bits) (c : Codec) [hc : Lawful c] : Lawful (ctag p c) where
   law v f h k := by
     simp only [ctag, Option.map_eq_some_iff] at h
@@ -557,5 +570,330 @@ instance lawful_binTreeF (X : Codec) [Lawful X] : ∀ fuel, Lawful (binTreeF X f
     unfold binTreeF; infer_instance
 
 instance lawful_binTree (X : Codec) [Lawful X] : Lawful (binTree X) := by unfold binTree; infer_instance
+
+
+/-! ### read traces (`Traced`): the trace of a value, replayed as a read script on its encoding followed by any
+    continuation, consumes exactly the encoding — at every nesting level -/
+
+theorem replay_cons (e : Ev) (es : List Ev) (st : List Frag) :
+    replay (e :: es) st = (e.step st).bind (replay es) := by
+  simp only [replay]; cases e.step st <;> rfl
+
+theorem replay_append (a b : List Ev) (st : List Frag) :
+    replay (a ++ b) st = (replay a st).bind (replay b) := by
+  induction a generalizing st with
+  | nil => simp [replay]
+  | cons e es ih =>
+    simp only [List.cons_append, replay_cons]
+    cases e.step st with
+    | none => simp
+    | some st' => simp [ih]
+
+theorem step_rd (kind : String) (b : Bits) (k : Frag) (st : List Frag) :
+    (Ev.rd kind b.length).step ((Frag.ofBits b ++ k) :: st) = some (k :: st) := by
+  simp [Ev.step]
+
+theorem step_push (n : String) (st : List Frag) : (Ev.push n).step st = some st := by
+  cases st <;> rfl
+theorem step_pop (st : List Frag) : Ev.pop.step st = some st := by
+  cases st <;> rfl
+
+/-- a codec that writes bits only and whose trace is one read of exactly that many bits -/
+theorem traced_of_rd (c : Codec)
+    (h : ∀ v f, c.enc v = some f → ∃ kind b, f = Frag.ofBits b ∧ c.trace v = [.rd kind b.length]) : Traced c where
+  law v f hf k st := by
+    obtain ⟨kind, b, rfl, ht⟩ := h v f hf
+    rw [ht, replay_cons, step_rd]; rfl
+
+instance traced_nothing : Traced nothing where
+  law v f h k st := by
+    cases v <;> simp [nothing] at h
+    subst h; simp [nothing, replay]
+
+instance traced_failC : Traced failC where
+  law v f h := by simp [failC] at h
+
+instance traced_uint (n : Nat) : Traced (uint n) := traced_of_rd _ (by
+  intro v f h
+  cases v <;> simp [uint] at h
+  case int i =>
+    obtain ⟨_, rfl⟩ := h
+    exact ⟨"u", _, rfl, by simp [uint, natToBits_length]⟩)
+
+instance traced_sint (n : Nat) : Traced (sint n) := traced_of_rd _ (by
+  intro v f h
+  cases v <;> simp [sint] at h
+  case int i =>
+    obtain ⟨_, _, rfl⟩ := h
+    exact ⟨"i", _, rfl, by simp [sint, natToBits_length]⟩)
+
+instance traced_bitsC (n : Nat) : Traced (bitsC n) := traced_of_rd _ (by
+  intro v f h
+  cases v <;> simp [bitsC] at h
+  case bits b =>
+    obtain ⟨hl, rfl⟩ := h
+    exact ⟨"b", b, rfl, by simp [bitsC, hl]⟩)
+
+instance traced_boolC : Traced boolC := traced_of_rd _ (by
+  intro v f h
+  cases v <;> simp [boolC] at h
+  case bool b =>
+    subst h
+    exact ⟨"c", [b], rfl, by simp [boolC]⟩)
+
+instance traced_varUInt (k : Nat) : Traced (varUInt k) := traced_of_rd _ (by
+  intro v f h
+  cases v <;> simp [varUInt] at h
+  case int i =>
+    obtain ⟨_, rfl⟩ := h
+    exact ⟨"v" ++ toString (bitLen (k - 1)), _, rfl, by simp [varUInt, natToBits_length]⟩)
+
+instance traced_grams : Traced grams := traced_varUInt 16
+
+instance traced_unary : Traced unary := traced_of_rd _ (by
+  intro v f h
+  cases v <;> simp [unary] at h
+  case int i =>
+    obtain ⟨_, rfl⟩ := h
+    exact ⟨"c", _, rfl, by simp [unary]⟩)
+
+instance traced_cellRef : Traced cellRef where
+  law v f h k st := by
+    cases v <;> simp [cellRef] at h
+    subst h; simp [cellRef, replay, Ev.step]
+
+theorem replay_rawrefs (r : List Cell) (bits : Bits) (kr : List Cell) (st : List Frag) :
+    replay (List.replicate r.length Ev.rawref) (⟨bits, r ++ kr⟩ :: st) = some (⟨bits, kr⟩ :: st) := by
+  induction r with
+  | nil => simp [replay]
+  | cons c r ih => simp [List.replicate_succ, replay_cons, Ev.step, ih]
+
+instance traced_rest : Traced rest where
+  law v f h k st := by
+    cases v <;> simp [rest] at h
+    case cell c =>
+      obtain ⟨e, b, r⟩ := c
+      cases e <;> simp at h
+      subst h
+      simp only [rest, replay_cons]
+      have : (Ev.rd "b" b.length).step ((⟨b, r⟩ ++ k) :: st) = some (⟨k.bits, r ++ k.refs⟩ :: st) := by
+        simp [Ev.step]
+      rw [this]
+      simpa using replay_rawrefs r k.bits k.refs st
+
+instance traced_ref (c : Codec) [hc : Traced c] : Traced (ref c) where
+  law v f h k st := by
+    simp only [ref] at h
+    split at h
+    · rename_i g hg
+      split at h
+      · simp at h; subst h
+        have h1 := hc.law v g hg Frag.nil (k :: st)
+        simp only [Frag.app_nil] at h1
+        have h0 : Ev.enter.step ((⟨[], [Cell.mk false g.bits g.refs]⟩ ++ k) :: st) = some (g :: k :: st) := by
+          simp [Ev.step]
+        simp only [ref, replay_cons, h0, Option.bind_some, replay_append, h1]
+        simp [replay, Ev.step, Frag.nil]
+      · simp at h
+    · simp at h
+
+instance traced_maybe (c : Codec) [hc : Traced c] : Traced (maybe c) where
+  law v f h k st := by
+    by_cases hv : v = .unit
+    · subst hv; simp [maybe] at h; subst h
+      have h0 := step_rd "c" [false] k st
+      simp only [List.length_singleton] at h0
+      simp [maybe, replay_cons, h0, replay]
+    · have h' : (c.enc v).map (Frag.ofBits [true] ++ ·) = some f := by
+        cases v <;> simp_all [maybe]
+      simp only [Option.map_eq_some_iff] at h'
+      obtain ⟨g, hg, rfl⟩ := h'
+      have ht : (maybe c).trace v = .rd "c" 1 :: c.trace v := by
+        cases v <;> simp_all [maybe]
+      have h1 := hc.law v g hg k st
+      have h0 := step_rd "c" [true] (g ++ k) st
+      simp only [List.length_singleton] at h0
+      rw [ht, replay_cons, Frag.app_assoc, h0]
+      simpa using h1
+
+instance traced_either (a b : Codec) [ha : Traced a] [hb : Traced b] : Traced (either a b) where
+  law v f h k st := by
+    rcases either_enc_cases a b v f h with ⟨x, g, rfl, hg, rfl⟩ | ⟨y, g, rfl, hg, rfl⟩
+    · have h1 := ha.law x g hg k st
+      have h0 := step_rd "c" [false] (g ++ k) st
+      simp only [List.length_singleton] at h0
+      simp only [either, replay_cons, Frag.app_assoc, h0]
+      simpa using h1
+    · have h1 := hb.law y g hg k st
+      have h0 := step_rd "c" [true] (g ++ k) st
+      simp only [List.length_singleton] at h0
+      simp only [either, replay_cons, Frag.app_assoc, h0]
+      simpa using h1
+
+instance traced_constrained (c : Codec) (p : Val → Bool) (g : Option (Gen Val)) [hc : Traced c] :
+    Traced (constrained c p g) where
+  law v f h k st := by
+    simp only [constrained] at h
+    split at h
+    · exact hc.law v f h k st
+    · simp at h
+
+instance traced_withGen (c : Codec) (g : Gen Val) [hc : Traced c] : Traced (withGen c g) where
+  law v f h k st := hc.law v f h k st
+instance traced_withPaths (c : Codec) (p : PMode → Gen (List Val)) [hc : Traced c] : Traced (withPaths c p) where
+  law v f h k st := hc.law v f h k st
+instance traced_typ (n : String) (c : Codec) [hc : Traced c] : Traced (typ n c) where
+  law v f h k st := hc.law v f h k st
+
+theorem step_untype (e : Ev) (st : List Frag) : e.untype.step st = e.step st := by
+  cases e <;> cases st <;> rfl
+
+theorem replay_untype (t : List Ev) (st : List Frag) : replay (t.map Ev.untype) st = replay t st := by
+  induction t generalizing st with
+  | nil => rfl
+  | cons e es ih =>
+    simp only [List.map_cons, replay_cons, step_untype]
+    cases e.step st with
+    | none => rfl
+    | some st' => simp [ih]
+
+instance traced_untyped (c : Codec) [hc : Traced c] : Traced (untyped c) where
+  law v f h k st := by
+    have := hc.law v f h k st
+    simpa [untyped, replay_untype] using this
+
+instance traced_ctag (p : Bits) (c : Codec) [hc : Traced c] : Traced (ctag p c) where
+  law v f h k st := by
+    simp only [ctag, Option.map_eq_some_iff] at h
+    obtain ⟨g, hg, rfl⟩ := h
+    have h1 := hc.law v g hg k st
+    have h0 := step_rd "c" p (g ++ k) st
+    simp only [ctag, replay_cons, Frag.app_assoc, h0]
+    simpa using h1
+
+instance traced_named (n : String) (c : Codec) [hc : Traced c] : Traced (named n c) where
+  law v f h k st := by
+    cases v <;> simp [named] at h
+    case con nm x =>
+      obtain ⟨rfl, hx⟩ := h
+      have h1 := hc.law x f hx k st
+      simp [named, replay_cons, step_push, replay_append, h1, step_pop, replay]
+
+instance traced_ite (p : Prop) [Decidable p] (a b : Codec) [ha : Traced a] [hb : Traced b] :
+    Traced (if p then a else b) := by
+  split <;> assumption
+
+class TracedFields (fs : List Field) : Prop where
+  law : ∀ env vs f, encFields fs env vs = some f → ∀ (k : Frag) (st : List Frag),
+    replay (traceFields fs env vs) ((f ++ k) :: st) = some (k :: st)
+
+instance tracedFields_nil : TracedFields [] where
+  law env vs f h k st := by
+    cases vs <;> simp [encFields] at h
+    subst h; simp [traceFields, replay]
+
+instance tracedFields_cons (n : String) (g : Env → Codec) (fs : List Field)
+    [hg : ∀ env, Traced (g env)] [hfs : TracedFields fs] : TracedFields ((n, g) :: fs) where
+  law env vs f h k st := by
+    obtain ⟨v, vs', a, b, rfl, ha, hb, rfl⟩ := encFields_cons_cases n g fs env vs f h
+    have h1 := (hg env).law v a ha (b ++ k) st
+    have h2 := hfs.law _ vs' b hb k st
+    simp [traceFields, replay_cons, step_push, step_pop, replay_append, Frag.app_assoc, h1, h2]
+
+instance tracedFields_fld (n : String) (c : Codec) (fs : List Field)
+    [hc : Traced c] [hfs : TracedFields fs] : TracedFields (fld n c :: fs) :=
+  tracedFields_cons n (fun _ => c) fs
+
+instance tracedFields_dep (n : String) (g : Env → Codec) (fs : List Field)
+    [hg : ∀ env, Traced (g env)] [hfs : TracedFields fs] : TracedFields (dep n g :: fs) :=
+  tracedFields_cons n g fs
+
+instance traced_recd (fs : List Field) [h : TracedFields fs] : Traced (recd fs) where
+  law v f hv k st := by
+    cases v <;> simp [recd] at hv
+    case record vs => simpa [recd] using h.law [] vs f hv k st
+
+class TracedAlts (alts : List Alt) : Prop where
+  law : ∀ p n c, (p, n, c) ∈ alts → Traced c
+
+instance tracedAlts_nil : TracedAlts [] where
+  law p n c h := by simp at h
+
+instance tracedAlts_cons (p : Bits) (n : String) (c : Codec) (more : List Alt)
+    [hc : Traced c] [hm : TracedAlts more] : TracedAlts ((p, n, c) :: more) where
+  law p' n' c' h := by
+    simp only [List.mem_cons] at h
+    rcases h with h | h
+    · cases h; exact hc
+    · exact hm.law p' n' c' h
+
+theorem replay_traceAlts (alts : List Alt) (nm : String) (v : Val) (f : Frag) (h : encAlts alts nm v = some f)
+    (hl : ∀ p c, (p, nm, c) ∈ alts → Traced c) (k : Frag) (st : List Frag) :
+    replay (traceAlts alts nm v) ((f ++ k) :: st) = some (k :: st) := by
+  induction alts with
+  | nil => simp [encAlts] at h
+  | cons a more ih =>
+    obtain ⟨p, name, c⟩ := a
+    simp only [encAlts] at h
+    split at h
+    · rename_i hn; subst hn
+      simp only [Option.map_eq_some_iff] at h
+      obtain ⟨g, hg, rfl⟩ := h
+      have h1 := (hl p c (by simp)).law v g hg k st
+      have h0 := step_rd "c" p (g ++ k) st
+      simp [traceAlts, replay_cons, Frag.app_assoc, h0, step_push, replay_append, h1, step_pop, replay]
+    · rename_i hn
+      simp only [traceAlts, hn, if_false]
+      exact ih h (fun p c hm => hl p c (by simp [hm]))
+
+instance traced_tagged (alts : List Alt) [ha : TracedAlts alts] : Traced (tagged alts) := by
+  unfold tagged
+  split
+  · exact ⟨fun v f h k st => by
+      cases v <;> simp at h
+      case con nm x =>
+        exact replay_traceAlts alts nm x f h (fun p c hm => ha.law p nm c hm) k st⟩
+  · infer_instance
+
+instance traced_uintRange (n lo hi : Nat) : Traced (uintRange n lo hi) := by
+  unfold uintRange; infer_instance
+instance traced_uintLe (m : Nat) : Traced (uintLe m) := by unfold uintLe; infer_instance
+instance traced_uintLt (m : Nat) : Traced (uintLt m) := by unfold uintLt; infer_instance
+instance traced_hmLabel (m : Nat) : Traced (hmLabel m) := by unfold hmLabel; infer_instance
+
+instance traced_hmNode (edge : Nat → Codec) (X : Codec) (n l : Nat) [Traced X] [∀ m, Traced (edge m)] :
+    Traced (hmNode edge X n l) := by unfold hmNode; infer_instance
+
+instance traced_hashmapF (X : Codec) [Traced X] : ∀ fuel n, Traced (hashmapF X fuel n)
+  | 0, n => by unfold hashmapF; infer_instance
+  | fuel+1, n => by
+    have ih := traced_hashmapF X fuel
+    unfold hashmapF; infer_instance
+
+instance traced_ahmNode (edge : Nat → Codec) (X Y : Codec) (n l : Nat) [Traced X] [Traced Y]
+    [∀ m, Traced (edge m)] : Traced (ahmNode edge X Y n l) := by unfold ahmNode; infer_instance
+
+instance traced_hashmapAugF (X Y : Codec) [Traced X] [Traced Y] : ∀ fuel n, Traced (hashmapAugF X Y fuel n)
+  | 0, n => by unfold hashmapAugF; infer_instance
+  | fuel+1, n => by
+    have ih := traced_hashmapAugF X Y fuel
+    unfold hashmapAugF; infer_instance
+
+instance traced_hashmap (n : Nat) (X : Codec) [Traced X] : Traced (hashmap n X) := by
+  unfold hashmap; infer_instance
+instance traced_hashmapAug (n : Nat) (X Y : Codec) [Traced X] [Traced Y] : Traced (hashmapAug n X Y) := by
+  unfold hashmapAug; infer_instance
+instance traced_hashmapE (n : Nat) (X : Codec) [Traced X] : Traced (hashmapE n X) := by
+  unfold hashmapE; infer_instance
+instance traced_hashmapAugE (n : Nat) (X Y : Codec) [Traced X] [Traced Y] : Traced (hashmapAugE n X Y) := by
+  unfold hashmapAugE; infer_instance
+
+instance traced_binTreeF (X : Codec) [Traced X] : ∀ fuel, Traced (binTreeF X fuel)
+  | 0 => by unfold binTreeF; infer_instance
+  | fuel+1 => by
+    have ih := traced_binTreeF X fuel
+    unfold binTreeF; infer_instance
+
+instance traced_binTree (X : Codec) [Traced X] : Traced (binTree X) := by unfold binTree; infer_instance
 
 end TonVerif.Tlb
